@@ -189,7 +189,7 @@ pub struct Plc {
     pub reqi: RequestId,
 
     /// Unique connection id to change
-    #[brw(pad_before = 3)]
+    #[brw(pad_after = 3)]
     pub ucid: ConnectionId,
 
     /// Player's allow cars
